@@ -38,8 +38,8 @@ class C19(Check):
             'flux2ab case, a filter_thru case with >= 1 (trace, band) the wavelengths overlap; distinct by input hash.')
     ASSUMPTIONS = [
         'float64 wavelengths (a float32 wavelength cannot hold 1e-6 A); Quantity values below 2000 A in units other '
-        'than Angstrom are required unchanged to 4 ulp (they pass through two unit conversions inside pydl), in '
-        'Angstrom / without unit bitwise',
+        'than Angstrom are required unchanged to 1e-12 relative (they pass through two unit conversions inside pydl: '
+        'observed 2 ulp), in Angstrom / without unit bitwise',
         'elements within 1e-9 relative of 2000 A are undecided for inputs given in nm/um/m (unit conversion rounds)',
         'filter_thru: every trace keeps >= 1 unmasked pixel (a fully masked trace has no flux to average); '
         'wavelength solutions strictly monotonic (increasing or decreasing); bands whose largest response over the '
@@ -71,11 +71,32 @@ class C19(Check):
         self.rec.wrap(A, 'vactoair')
         self.rec.wrap(IO, 'sdssflux2ab')
         self.rec.wrap(S2, 'filter_thru')
+        self.worst = {}
         self.filters = R.load_filters(repo_path())
         self.edges = R.support_edges(self.filters)
 
     def teardown(self):
         self.rec.unwrap_all()
+
+    # largest deviation seen per toleranced clause (evidence of the margin; never part of the verdict)
+    TOLERANCES = {'roundtrip_A': RT_TOL, 'flavour_rel': 1e-9, 'below2000_other_units_rel': 1e-12, 'ab_f8_rel': 1e-12,
+                  'ft_linear_f8': 1e-10, 'ft_const_f8_rel': 1e-12, 'ft_model_f8': 1e-7, 'ft_wset_waveimg_f8': 1e-9,
+                  'ft_bounds_excess_f8': 1e-12}
+
+    def _worst(self, key, v):
+        v = float(v)
+        if v == v and v > self.worst.get(key, -1.0):
+            self.worst[key] = v
+
+    def shard_extra(self):
+        return {'x_worst': self.worst}
+
+    def extra_evidence(self, merged):
+        w = {}
+        for d in merged.get('x_worst', []):
+            for k, v in d.items():
+                w[k] = max(w.get(k, 0.0), v)
+        return {'worst_observed_deviation': {k: {'observed': w[k], 'tolerance': self.TOLERANCES.get(k)} for k in sorted(w)}}
 
     def budget(self, tier):
         q = tier == 'quick'
@@ -340,7 +361,8 @@ class C19(Check):
             if exact:
                 bad = below & ~(yval == xval)
             else:
-                bad = below & ~(np.abs(yval - xval) <= 4 * np.spacing(np.abs(xval)))
+                bad = below & ~(np.abs(yval - xval) <= 1e-12 * np.abs(xval))
+                self._worst('below2000_other_units_rel', np.max((np.abs(yval - xval) / np.abs(xval))[below]))
             out.expect(not bad.any(), 'below-2000-unchanged', '%s(%s%s) changed a wavelength below 2000 A' % (
                 fname, flavour, '' if unit is None else ' ' + unit), lam=lam[bad][:5], got=yA[bad][:5])
             out.count('atv_below_unchanged', int(below.sum()))
@@ -358,6 +380,9 @@ class C19(Check):
                        'float64 array' % (fname, flavour, '' if unit is None else ' [' + unit + ']'),
                        lam=lam[bad][:5], got=yA[bad][:5], array_answer=base[bad][:5])
             out.count('atv_flavour_agreement', int(decided.sum()))
+            if decided.any():
+                with np.errstate(all='ignore'):
+                    self._worst('flavour_rel', np.nanmax((np.abs(yA - base) / np.abs(base))[decided]))
         # 4. round trip through the inverse, feeding the answer as it came back
         ybefore = _bytes(y.value if isq else y)
         z = inv(y)
@@ -392,6 +417,7 @@ class C19(Check):
             if exact and (lam[dom] == EDGE).any():
                 out.count('atv_exact_2000')
             w = float(np.max(err[dom]))
+            self._worst('roundtrip_A', w)
             out.info['worst_roundtrip_A'] = max(out.info.get('worst_roundtrip_A', 0.0), w)
 
     def _run_atv(self, case, out):
@@ -485,8 +511,12 @@ class C19(Check):
         bad = ~(np.abs(res['flux', 0] - exp) <= tol * np.abs(exp))
         out.expect(not bad.any(), 'flux2ab-flux-vs-mag', 'flux form is not flux*10^(-c_b/2.5) with the c_b of the magnitude form',
                    got=res['flux', 0][bad][:5], expected=exp[bad][:5], c=c)
+        if dt == 'f8' and (exp != 0).any():
+            self._worst('ab_f8_rel', np.max((np.abs(res['flux', 0] - exp) / np.abs(exp))[exp != 0]))
         exp = pr['ivar'] * ifac
         bad = ~(np.abs(res['ivar', 0] - exp) <= tol * np.abs(exp))
+        if dt == 'f8' and (exp != 0).any():
+            self._worst('ab_f8_rel', np.max((np.abs(res['ivar', 0] - exp) / np.abs(exp))[exp != 0]))
         out.expect(not bad.any(), 'flux2ab-ivar-vs-mag', 'ivar form is not ivar*10^(+2c_b/2.5) with the c_b of the magnitude form',
                    got=res['ivar', 0][bad][:5], expected=exp[bad][:5], c=c)
         # the same statements on physical quantities: magnitude of the AB flux, and signal-to-noise
@@ -614,6 +644,8 @@ class C19(Check):
                 sup = R.dilate(Rr[b, t] > 0)
                 lo, hi = v1[t][sup].min(), v1[t][sup].max()
                 eps = 1e-12 * s1 if not single else 1e-5 * s1
+                if not single:
+                    self._worst('ft_bounds_excess_f8', max(lo - r1[t, b], r1[t, b] - hi, 0.0) / s1)
                 out.expect(lo - eps <= r1[t, b] <= hi + eps, 'filter-bounds',
                            'trace %d band %s: %.17g outside [%.17g, %.17g] of the flux under the response' % (
                                t, R.BANDS[b], r1[t, b], lo, hi))
@@ -626,6 +658,8 @@ class C19(Check):
             out.expect(not bad.any(), 'filter-weighted-mean', 'differs from sum(f*R*dloglam)/sum(R*dloglam) by %.3g (scale %.3g)' % (
                 float(np.abs(r1 - mod)[overlap].max()) if overlap.any() else 0.0, s1), got=r1, model=mod, toair=toair)
             out.count('ft_model_compared', int(overlap.sum()))
+            if overlap.any() and not single:
+                self._worst('ft_model_f8', np.abs(r1 - mod)[overlap].max() / s1)
         # (2) constant spectrum
         c = case['const']
         cf = np.full((nT, nx), c, dtype=dt)
@@ -640,6 +674,8 @@ class C19(Check):
         out.expect(not bad.any(), 'filter-constant', 'constant spectrum %r does not give %r in a band the wavelengths overlap%s' % (
             cv, cv, ' (mask given)' if case['const_masked'] else ''), got=rc, overlap=overlap)
         out.count('ft_const', int(overlap.sum()))
+        if overlap.any() and not single and cv != 0:
+            self._worst('ft_const_f8_rel', np.abs(rc - cv)[overlap].max() / abs(cv))
         out.count('ft_no_overlap_returned_zero', int((rc[none] == 0).sum()))
         # (3,4) mask: independent of the values under it, exactly
         r1m = call(f1, m=mask)
@@ -674,6 +710,8 @@ class C19(Check):
         out.expect(not bad.any(), 'filter-linear', 'f(a*x+b*y) != a*f(x)+b*f(y) by %.3g (scale %.3g)%s' % (
             float(np.abs(rab - (a * ra + b_ * rb)).max()), sc, ' (mask given)' if case['lin_masked'] else ''))
         out.count('ft_linear')
+        if not single:
+            self._worst('ft_linear_f8', np.abs(rab - (a * ra + b_ * rb)).max() / sc)
         # (7) the other form of the wavelength solution
         if smooth:
             ro = call(f1, form='wset' if prim == 'waveimg' else 'waveimg')
@@ -683,6 +721,8 @@ class C19(Check):
                        'wset and the equivalent waveimg differ by %.3g (scale %.3g)' % (float(np.abs(ro - r1).max()), s1),
                        wset=ro if prim == 'waveimg' else r1, waveimg=r1 if prim == 'waveimg' else ro)
             out.count('ft_wset_vs_waveimg')
+            if not single:
+                self._worst('ft_wset_waveimg_f8', np.abs(ro - r1).max() / s1)
         # (8) same flux object again: the answer for an image must not depend on earlier calls having seen it
         r1b = call(f1)
         if r1b is None:
